@@ -1595,6 +1595,100 @@ def gen(repo):
             files['ApiTagW.v'] = a
         except TranslateError as ex:
             failed['ApiTagW.v'] = str(ex)
+        # ---------------- CellProtoW.v : the words AtomicRc / AtomicWeak write into a link, and when their CAS loops retry
+        try:
+            strong_src = rd('src/strong.rs')
+            weak_src = rd('src/weak.rs')
+
+            class CellEmitter(TaggedEmitter):
+                def emit_mcall(self, e, env, expected):
+                    _, recv, name, args = e
+                    if name == 'with_timestamp' and not args:
+                        r, _ = self.emit(recv, env)
+                        return ("(c_with_timestamp k E %s)" % r, 'Self')
+                    return TaggedEmitter.emit_mcall(self, e, env, expected)
+
+                def emit_call(self, e, env, expected):
+                    f, args = e[1], e[2]
+                    if f[0] == 'path' and f[1] == ['global_epoch'] and not args:
+                        return ('E', 'usize')
+                    return TaggedEmitter.emit_call(self, e, env, expected)
+
+            def cell_emitter():
+                emx = CellEmitter({'HIGH_TAG_WIDTH': 'u32'}, sigs, 'ptr', ['ptr'], extra_params=['k'], fn_prefix='t_')
+                emx.all_consts.update(emt.all_consts)
+                emx.bodies.update(tg_fns)
+                emx.defined = set(tg_fns)
+                emx.emitted = set(tg_fns)
+                return emx
+
+            c = HEADER % "src/strong.rs, src/weak.rs (AtomicRc / AtomicWeak: words written into a link, retry tests of the CAS loops)"
+            c += "Require Import Params TaggedW.\n\n"
+            c += "(* k = log2 alignment, E = the global epoch read by with_timestamp; h = the word of the Rc / Weak handed in,\n   ex = the word of the expected Snapshot, cur = the word a failed hardware CAS returned, tag = desired_tag *)\n\n"
+            mts = re.search(r"fn\s+with_timestamp\s*\(\s*self\s*\)\s*->\s*Self\s*\{", strong_src)
+            if not mts:
+                raise TranslateError("Tagged::with_timestamp not found in strong.rs")
+            j = find_matching(strong_src, mts.end() - 1)
+            body = _strip_macros(strong_src[mts.end() - 1:j + 1])
+            emx = cell_emitter()
+            v, _ = emx.emit(P(tokenize(body)).parse_block(), {'self': 'Self'}, 'ptr')
+            c += "Definition c_with_timestamp (k E self : Z) : Z :=\n  %s.\n\n" % v
+            for cname, src, tyname in (('CS', strong_src, 'AtomicRc'), ('CW', weak_src, 'AtomicWeak')):
+                fns = {}
+                for mm in re.finditer(r"(?m)^impl\b([^{;]*)\{", src):
+                    hd = mm.group(1)
+                    if ' for ' in hd or not re.search(r"\s%s<[^{]*>\s*$" % tyname, hd):
+                        continue
+                    j = find_matching(src, mm.end() - 1)
+                    fns.update(get_fns(src[mm.end():j]))
+                for op in ('store', 'swap', 'compare_exchange', 'compare_exchange_weak', 'compare_exchange_tag'):
+                    if op not in fns:
+                        raise TranslateError("%s::%s not found" % (tyname, op))
+                    text = _strip_macros(fns[op][2])
+                    text = re.sub(r"\b(?:ptr|new|desired)\s*\.\s*ptr\b", "H", text)
+                    text = re.sub(r"\b(?:ptr|new|desired)\s*\.\s*into_raw\s*\(\s*\)", "H", text)
+                    text = re.sub(r"\bexpected\s*\.\s*ptr\b", "EX", text)
+                    emx = cell_emitter()
+                    env = {'H': 'Self', 'EX': 'Self', '$val:H': 'h', '$val:EX': 'ex', 'desired_tag': 'usize', '$val:desired_tag': 'tag',
+                           'current_raw': 'Self', '$val:current_raw': 'cur'}
+                    lets = proto_lets(text)
+                    for name, exprs in lets.items():
+                        if name in env or name == 'current_raw':
+                            continue
+                        if name == 'expected_raw':
+                            # the loop variable: starts as the expected word, later the word actually stored
+                            env['expected_raw'] = 'Self'
+                            env['$val:expected_raw'] = 'ex'
+                            continue
+                        if len(exprs) == 1:
+                            emx.lazy_lets[name] = exprs[0]
+                    binders = "(k E h ex cur tag : Z)"
+                    written = []
+                    for mm in re.finditer(r"\.\s*link\s*\.\s*(swap|compare_exchange_weak|compare_exchange)\s*\(", text):
+                        j = find_matching(text, mm.end() - 1, '(', ')')
+                        a_ = _split_args(text[mm.end():j])
+                        if mm.group(1) == 'swap':
+                            written.append(('word', a_[0]))
+                        else:
+                            written.append(('expected', a_[0]))
+                            written.append(('word', a_[1]))
+                    words = [emx.emit(P(tokenize(x)).parse_expr(), env, 'ptr')[0] for kind, x in written if kind == 'word']
+                    exps = [emx.emit(P(tokenize(x)).parse_expr(), env, 'ptr')[0] for kind, x in written if kind == 'expected']
+                    conds = []
+                    for kind, srcc in proto_conds(text):
+                        if kind != 'cond' or srcc.startswith('let '):
+                            continue
+                        try:
+                            conds.append(emx.emit(P(tokenize(srcc)).parse_expr(), env, 'bool')[0])
+                        except TranslateError:
+                            pass        # tests on the old pointer (`if let Some(cnt) = ..`) are not part of this table
+                    c += "Definition %s_%s_words %s : list Z := [%s].\n" % (cname, op, binders, "; ".join(words))
+                    c += "Definition %s_%s_expected %s : list Z := [%s].\n" % (cname, op, binders, "; ".join(exps))
+                    c += "Definition %s_%s_retry %s : list bool := [%s].\n" % (cname, op, binders, "; ".join(conds))
+                c += "\n"
+            files['CellProtoW.v'] = c
+        except TranslateError as ex:
+            failed['CellProtoW.v'] = str(ex)
     except TranslateError as ex:
         failed['TaggedW.v'] = str(ex)
     except (NameError, KeyError, UnboundLocalError) as ex:
